@@ -1,5 +1,5 @@
 import DimodModel.VarsKeys
-import DimodProofs.VarsInv
+import DimodProofs.VarsSteps
 
 /-! Python key equality is equality of canonical labels, and every primitive of `cyvariables.pyx` written
     over Python objects (`KState`) factors through `canon` to the label-level model (`VState`). -/
@@ -243,5 +243,93 @@ theorem relabelOne_factors (k : KState) (old new : PyKey) :
       | true => exact absurd (this.1 hp) hc
     simp only [hf, Bool.false_eq_true, if_false, hc]
     simp only [toV, VState.mk.injEq, List.map_cons, AMap.set, i2lErase_toV, l2iErase_toV, and_self]
+
+end KState
+
+/-! ### composite operations over objects commute with the abstraction -/
+
+namespace KState
+open PyKey
+
+theorem isRange_toV (k : KState) : k.toV.isRange = k.l2i.isEmpty := by simp [VState.isRange, toV]
+
+theorem autoLabel_least_factors (k : KState) (h : k.toV.Inv) (fuel i : Nat) :
+    autoLabel.least k fuel i = VState.autoLabel.least k.toV fuel i := by
+  induction fuel generalizing i with
+  | zero => rfl
+  | succ f ih =>
+    simp only [autoLabel.least, VState.autoLabel.least, count_factors k h, canon, ih]
+
+theorem autoLabel_factors (k : KState) (h : k.toV.Inv) : canon k.autoLabel = k.toV.autoLabel := by
+  unfold autoLabel VState.autoLabel
+  rw [isRange_toV, count_factors k h]
+  simp only [canon, autoLabel_least_factors k h]
+  have : k.toV.stop = k.stop := rfl
+  rw [this]
+  split <;> simp [canon]
+
+theorem appendP_factors (k : KState) (h : k.toV.Inv) (v : Option PyKey) (p : Bool) :
+    (k.appendP v p).map toV = k.toV.appendP (v.map canon) p := by
+  cases v with
+  | none => simp only [appendP, VState.appendP, Option.map_none, Option.map_some, append_factors, autoLabel_factors k h]
+  | some v =>
+    simp only [appendP, VState.appendP, Option.map_some, ← count_factors k h v]
+    cases k.count v <;> cases p <;> simp [append_factors]
+
+theorem index?_factors (k : KState) (h : k.toV.Inv) (v : PyKey) : k.index? v = k.toV.index? (canon v) := by
+  simp only [index?, VState.index?, count_factors k h v, idxOf_factors]
+
+theorem labelAt_factors (k : KState) (i : Nat) : canon (k.labelAt i) = k.toV.labelAt i := by
+  have := i2lGet?_toV k.i2l (.int (i : Int)) (i : Int) rfl (by omega)
+  simp only [Int.toNat_natCast] at this
+  unfold labelAt VState.labelAt
+  show _ = (AMap.get? (k.i2l.map fun p => (p.1, canon p.2)) i).getD (.int i)
+  rw [← this]
+  cases i2lGet? k.i2l (.int (i : Int)) <;> simp [canon]
+
+/-- iteration over the object-level state yields objects whose canonical labels are the label-level list -/
+theorem abs_factors (k : KState) : (List.range k.stop).map (fun i => canon (k.labelAt i)) = k.toV.abs := by
+  unfold VState.abs
+  apply List.map_congr_left
+  intro i _
+  exact labelAt_factors k i
+
+/-- every object-level step abstracts to the label-level step of the canonicalised operation -/
+theorem step_factors (k : KState) (h : k.toV.Inv) (op : KOp) :
+    ((k.step op).1.toV, (k.step op).2) = k.toV.step op.toOp := by
+  cases op with
+  | append v p =>
+    have := appendP_factors k h v p
+    simp only [step, VState.step, KOp.toOp]
+    rw [← this]
+    cases k.appendP v p <;> rfl
+  | pop =>
+    simp only [step, VState.step, KOp.toOp]
+    by_cases h0 : k.stop = 0
+    · have : k.toV.pop = none := by simp [VState.pop, toV, h0]
+      simp [h0, this]
+    · simp [h0, pop_factors k h0]
+  | clear => rfl
+  | relabelInts => rfl
+
+/-- histories of append / auto-append / pop / clear / relabel-as-integers over *objects* (aliases included)
+    abstract, step by step, to the label-level history of the canonicalised operations; with `history_refines`
+    this gives the list behaviour for the objects -/
+theorem history_factors (ops : List KOp) : ∀ (k : KState), k.toV.Inv →
+    (ops.foldl (fun k op => (k.step op).1) k).toV = (ops.map KOp.toOp).foldl (fun s op => (s.step op).1) k.toV ∧
+    (ops.foldl (fun k op => (k.step op).1) k).toV.Inv := by
+  induction ops with
+  | nil => intro k h; exact ⟨rfl, h⟩
+  | cons op ops ih =>
+    intro k h
+    have hs := step_factors k h op
+    have h1 : (k.step op).1.toV = (k.toV.step op.toOp).1 := congrArg Prod.fst hs
+    have hI : (k.step op).1.toV.Inv := by
+      rw [h1]
+      exact (VState.step_refines k.toV h op.toOp (by cases op <;> trivial)).1
+    obtain ⟨e, hI'⟩ := ih (k.step op).1 hI
+    simp only [List.foldl_cons, List.map_cons]
+    refine ⟨?_, hI'⟩
+    rw [e, h1]
 
 end KState
